@@ -53,6 +53,12 @@ def generate(tier, seed):
                     d["opt"]["alpha"] = max(d["opt"]["alpha"], 0.8)
                 base = {"model": d, "cseed": int(rng.integers(1 << 30))}
                 cases.append(("formula", dict(base, gen=str(rng.choice(["RandMeth", "Fourier"])), structured=bool(rng.random() < 0.3))))
+                other = [v for v in common.valid_dims(name) if v != dim]
+                if name in ("JBessel", "SuperSpherical", "TPLSimple"):
+                    other = [v for v in other if v < dim]  # the drawn nu is valid for dim; its lower bound grows with the dimension
+                if other:
+                    # the same model reached through a dimension change on a live object must generate what a fresh model generates
+                    cases.append(("formula", dict(base, gen=str(rng.choice(["RandMeth", "Fourier"])), structured=False, via_dim=int(rng.choice(other)))))
                 cases.append(("wave_vectors", dict(base, N={"quick": 256, "thorough": 1024}[tier], S={"quick": 120, "thorough": 300}[tier])))
     for name in ("Gaussian", "Exponential", "Matern", "Integral", "TPLGaussian", "HyperSpherical"):
         for dim in (1, 2, 3):
@@ -71,8 +77,23 @@ def _iso(d, x):
     return orot.isometrize(d["dim"], d.get("angles", 0.0), d.get("anis", 1.0), x)
 
 
-def _make(d, gen, seed, **kw):
-    model = common.build_model(d)
+def _model_via_dim(d, via):
+    """The model of description d, built in dimension `via` first and then moved to d['dim'] (geometry re-stated afterwards)."""
+    d2 = {k: v for k, v in d.items() if k not in ("anis", "angles")}
+    d2["dim"] = via
+    with warnings.catch_warnings():
+        warnings.simplefilter("ignore")
+        model = common.build_model(d2)
+        model.spectral_density(np.array([0.5]))  # use it in the old dimension first
+        model.dim = d["dim"]
+        if d["dim"] > 1:
+            model.anis = d.get("anis", 1.0)
+            model.angles = d.get("angles", 0.0)
+    return model
+
+
+def _make(d, gen, seed, via_dim=None, **kw):
+    model = common.build_model(d) if via_dim is None else _model_via_dim(d, via_dim)
     if gen == "RandMeth" and not model.has_ppf:
         kw.setdefault("sampling", "mcmc")
     with warnings.catch_warnings():
@@ -91,7 +112,22 @@ def check_formula(ctx, c):
         kw = dict(period=[float(v) for v in rng.uniform(8, 20, size=dim) * d["len_scale"]], mode_no=[int(v) for v in rng.choice([4, 8, 16] if dim < 3 else [4, 6], size=dim)])
     else:
         kw = dict(mode_no=int(rng.choice([16, 100, 333])))
-    model, srf = _make(d, gen, int(rng.integers(1, 1 << 24)), **kw)
+    gseed = int(rng.integers(1, 1 << 24))
+    model, srf = _make(d, gen, gseed, via_dim=c.get("via_dim"), **kw)
+    if c.get("via_dim") is not None:
+        fresh_model, fresh = _make(d, gen, gseed, **kw)
+        mech = {"gen": gen, "model": d["name"], "dim": dim, "history": "dim-change"}
+        ctx.event("history_twins_compared")
+        if not fresh_model == model:
+            ctx.discard("model after the dimension change differs from the fresh model (state is C14's subject)")
+            return
+        for attr in (("_modes", "_spectrum_factor") if gen == "Fourier" else ("_cov_sample",)):
+            a, b = np.asarray(getattr(srf.generator, attr), dtype=float), np.asarray(getattr(fresh.generator, attr), dtype=float)
+            if a.shape != b.shape or not np.allclose(a, b, rtol=1e-10, atol=0, equal_nan=True):
+                ctx.fail(dict(mech, what=f"generator{attr}-depends-on-model-history"),
+                         f"{gen} {d['name']} built in dim {c['via_dim']} then moved to dim {dim}: {attr} differs from a fresh model's "
+                         f"(max rel {np.nanmax(np.abs(a - b) / np.maximum(np.abs(b), 1e-300)) if a.shape == b.shape else 'shape'})")
+                return
     if c["structured"]:
         axes = [np.sort(rng.uniform(-4, 4, size=int(rng.integers(2, 5)))) * d["len_scale"] for _ in range(dim)]
         x = np.array(np.meshgrid(*axes, indexing="ij")).reshape(dim, -1)
